@@ -4,6 +4,7 @@ CONSTANTS
   Types = {"Small", "Big", "Sp"}
   Vals = {1}
   Fuses = {0, 1}
+  AFuses = {0}
   MCCastForms <- FewCastForms
   CountOps = FALSE
 VIEW absvars
